@@ -556,7 +556,11 @@ func cbor2JsonOneObject(src *bufio.Reader, dst io.Writer) {
 
 	switch major {
 	case majorTypeUnsignedInt:
-		fallthrough
+		// Values above MaxInt64 wrap in the int64 decodeInteger returns;
+		// converting back gives the unsigned value that was encoded.
+		n := decodeInteger(src)
+		dst.Write([]byte(strconv.FormatUint(uint64(n), 10)))
+
 	case majorTypeNegativeInt:
 		n := decodeInteger(src)
 		dst.Write([]byte(strconv.Itoa(int(n))))
